@@ -2,9 +2,12 @@ package main
 
 import (
 	"bytes"
+	"context"
 	"encoding/base64"
 	"encoding/json"
 	"fmt"
+	"io"
+	"net"
 	"net/http"
 	"net/http/httptest"
 	"net/url"
@@ -14,10 +17,14 @@ import (
 	"strings"
 	"sync"
 	"sync/atomic"
+	"time"
 
+	"github.com/database64128/shadowsocks-go/api"
 	"github.com/database64128/shadowsocks-go/api/ssm"
+	"github.com/database64128/shadowsocks-go/conn"
 	"github.com/database64128/shadowsocks-go/cred"
 	"github.com/database64128/shadowsocks-go/stats"
+	"github.com/database64128/shadowsocks-go/tlscerts"
 	"go.uber.org/zap"
 )
 
@@ -65,7 +72,13 @@ type impl struct {
 	col  stats.Collector
 	mux  *http.ServeMux
 	path string
+	// real API server (api.Config.NewServer + Start) on a unix socket, when requested
+	real   *api.Server
+	client *http.Client
 }
+
+// realServer: route requests through the real API server instead of the in-process mux.
+var realServer atomic.Bool
 
 func newImpl(creds []string) (*impl, error) {
 	m := map[string][]byte{}
@@ -96,12 +109,46 @@ func newImpl(creds []string) (*impl, error) {
 	sm.RegisterHandlers(register)
 	regMux = nil
 	regMu.Unlock()
-	return &impl{col: col, mux: mux, path: p}, nil
+	im := &impl{col: col, mux: mux, path: p}
+	if realServer.Load() {
+		sock := filepath.Join(tmp(), fmt.Sprintf("api-%d.sock", tmpSeq.Add(1)))
+		cfg := api.Config{Enabled: true, Listeners: []api.ListenerConfig{{Network: "unix", Address: sock}}}
+		srv, err := cfg.NewServer(zap.NewNop(), conn.NewListenConfigCache(), &tlscerts.Store{},
+			map[string]ssm.Server{serverName: {CredentialManager: ms, StatsCollector: col}}, []string{serverName})
+		if err != nil {
+			return nil, fmt.Errorf("api.Config.NewServer: %w", err)
+		}
+		if err := srv.Start(context.Background()); err != nil {
+			return nil, fmt.Errorf("api server start: %w", err)
+		}
+		im.real = srv
+		im.client = &http.Client{Timeout: 20 * time.Second, Transport: &http.Transport{
+			DialContext: func(ctx context.Context, _, _ string) (net.Conn, error) {
+				var d net.Dialer
+				return d.DialContext(ctx, "unix", sock)
+			}}}
+	}
+	return im, nil
 }
 
-func (s *impl) close() { os.Remove(s.path) }
+func (s *impl) close() {
+	if s.real != nil {
+		s.client.CloseIdleConnections()
+		s.real.Stop()
+	}
+	os.Remove(s.path)
+}
 
 func (s *impl) get(path string) (int, string) {
+	if s.real != nil {
+		resp, err := s.client.Get("http://api" + apiPrefix + path)
+		if err != nil {
+			return -1, err.Error()
+		}
+		defer resp.Body.Close()
+		b, _ := io.ReadAll(resp.Body)
+		return resp.StatusCode, string(b)
+	}
 	req := httptest.NewRequest(http.MethodGet, apiPrefix+path, nil)
 	rec := httptest.NewRecorder()
 	s.mux.ServeHTTP(rec, req)
